@@ -11,9 +11,20 @@ import (
 	"encoding/json"
 	"flag"
 	"fmt"
+	"github.com/nyaruka/gocommon/dates"
+	"github.com/nyaruka/gocommon/httpx"
+	"github.com/nyaruka/gocommon/urns"
+	"github.com/nyaruka/goflow/services/airtime/dtone"
+	"github.com/nyaruka/goflow/services/classification/luis"
+	"github.com/nyaruka/goflow/services/classification/wit"
+	"github.com/nyaruka/goflow/test"
+	"github.com/nyaruka/goflow/utils/smtpx"
+	"github.com/shopspring/decimal"
+	"net/http"
 	"os"
 	"sort"
 	"strings"
+	"time"
 
 	"github.com/nyaruka/gocommon/jsonx"
 	"github.com/nyaruka/gocommon/uuids"
@@ -66,9 +77,9 @@ func c08Flow() M {
 			{"uuid": actionUUID(1, 1, 5), "type": "start_session", "flow": M{"uuid": flowUUID(2), "name": "Registration"}, "legacy_vars": []string{"@fields.nope_start", "@contact.uuid"}, "exclusions": M{}},
 		},
 		"router": M{"type": "switch", "operand": "@(parse_json(\"{\\\"a\\\":1,\\\"A\\\":2,\\\"b\\\":3}\").a)", "result_name": "res",
-			"cases":      []M{{"uuid": caseUUID(1, 1, 1), "type": "has_group", "arguments": []string{"1e1ce1e1-9288-4504-869e-022000000000", "Gbase"}, "category_uuid": catUUID(1, 1, 1)},
+			"cases": []M{{"uuid": caseUUID(1, 1, 1), "type": "has_group", "arguments": []string{"1e1ce1e1-9288-4504-869e-022000000000", "Gbase"}, "category_uuid": catUUID(1, 1, 1)},
 				{"uuid": caseUUID(1, 1, 2), "type": "has_pattern", "arguments": []string{"[a-"}, "category_uuid": catUUID(1, 1, 1)}},
-			"categories": []M{{"uuid": catUUID(1, 1, 1), "name": "In", "exit_uuid": exitUUID(1, 1, 1)}, {"uuid": catUUID(1, 1, 2), "name": "Other", "exit_uuid": exitUUID(1, 1, 2)}},
+			"categories":            []M{{"uuid": catUUID(1, 1, 1), "name": "In", "exit_uuid": exitUUID(1, 1, 1)}, {"uuid": catUUID(1, 1, 2), "name": "Other", "exit_uuid": exitUUID(1, 1, 2)}},
 			"default_category_uuid": catUUID(1, 1, 2)},
 		"exits": exitsFor(1, 1, 0, 0)}
 	return M{"uuid": flowUUID(1), "name": "Determinism", "spec_version": "13.6.0", "language": "eng", "type": "messaging", "nodes": []M{node}, "localization": loc}
@@ -79,7 +90,12 @@ func c08Assets() []byte {
 		{"uuid": flowUUID(2), "name": "Registration", "spec_version": "13.6.0", "language": "eng", "type": "messaging", "nodes": []M{}},
 		{"uuid": flowUUID(3), "name": "registration", "spec_version": "13.6.0", "language": "eng", "type": "messaging", "nodes": []M{}},
 		{"uuid": flowUUID(4), "name": "REGISTRATION", "spec_version": "13.6.0", "language": "eng", "type": "messaging", "nodes": []M{}}},
-		"fields": []M{{"uuid": "f1b5aea6-6586-41c7-9020-1a6326cc6565", "key": "base", "name": "Base", "type": "text"}},
+		"fields": []M{{"uuid": "f1b5aea6-6586-41c7-9020-1a6326cc6565", "key": "base", "name": "Base", "type": "text"},
+			{"uuid": "f1b5aea6-6586-41c7-9020-1a6326cc6566", "key": "home", "name": "Home", "type": "district"}},
+		// same-named districts and wards under different parents
+		"locations": []M{{"name": "Country", "aliases": []string{}, "children": []M{
+			{"name": "North", "aliases": []string{"Top"}, "children": []M{{"name": "Springfield", "aliases": []string{"Spring"}, "children": []M{{"name": "Centre"}, {"name": "Mill"}}}, {"name": "Shelby", "children": []M{{"name": "Centre"}}}}},
+			{"name": "South", "aliases": []string{"Bottom"}, "children": []M{{"name": "Springfield", "aliases": []string{}, "children": []M{{"name": "Centre"}, {"name": "Dock"}}}, {"name": "Ogden", "children": []M{{"name": "Mill"}}}}}}}},
 		"channels": []M{{"uuid": chanA, "name": "A", "address": "+17036975131", "schemes": []string{"tel"}, "roles": []string{"send", "receive"}, "country": "US"}}})
 }
 
@@ -160,6 +176,251 @@ func c08Scenarios() []scenario {
 			evs = append(evs, string(jsonx.MustMarshal(e)))
 		}
 		return strings.Join(missing, ",") + "##" + strings.Join(evs, "\n") + "##" + string(jsonx.MustMarshal(sp.Segments())) + "##" + string(sessionJSON(s))
+	})
+	// ---- lookups that go through indexes held by the shared assets: every other execution reuses ONE SessionAssets, the
+	// rest load fresh ones - an execution must not depend on what earlier ones looked up
+	var lookupSA flows.SessionAssets
+	nLookup := 0
+	add("engine/lookups-on-reused-assets", "location hierarchy / group / flow / field lookups on shared assets", func() string {
+		resetGenerators(11)
+		nLookup++
+		var sa flows.SessionAssets
+		var err error
+		if nLookup%2 == 0 && lookupSA != nil {
+			sa = lookupSA
+		} else {
+			sa, err = loadAssets(c08Assets())
+			if err != nil {
+				return "ERR " + err.Error()
+			}
+			if lookupSA == nil {
+				lookupSA = sa
+			}
+		}
+		c := contactJSON()
+		c["fields"] = M{"home": M{"text": "Springfield", "state": "Country > South", "district": "Country > South > Springfield"}}
+		t := M{"type": "manual", "flow": M{"uuid": flowUUID(2), "name": "Registration"}, "contact": c, "triggered_on": "2018-07-06T12:00:00Z"}
+		trig, err := readTrigger(sa, mustJSON(t))
+		if err != nil {
+			return "ERR " + err.Error()
+		}
+		s, _, err := newEngine(0, -1).NewSession(sa, trig)
+		if err != nil {
+			return "ERR " + err.Error()
+		}
+		var b strings.Builder
+		// each name is asked for under its first parent, then under another one, then under the first again
+		for _, tpl := range []string{`@(has_district("Springfield", "North").match)`, `@(has_district("Springfield", "South").match)`, `@(has_district("Springfield", "North").match)`, `@(has_district("Springfield").match)`,
+			`@(has_ward("Centre", "Springfield", "North").match)`, `@(has_ward("Centre", "Shelby", "North").match)`, `@(has_ward("Centre", "Springfield", "South").match)`, `@(has_ward("Mill", "Springfield", "North").match)`,
+			`@(has_ward("Centre", "Springfield", "South").match)`, `@(has_ward("Centre", "Springfield", "North").match)`, `@(has_ward("Centre", "Shelby", "North").match)`,
+			`@(has_ward("Mill", "Ogden", "South").match)`, `@(has_ward("Mill", "Springfield", "North").match)`, `@(has_state("Bottom").match)`, `@(has_district("Spring", "Top").match)`,
+			`@(has_district("Springfield", "South").match)`, `@(has_district("Springfield", "North").match)`, `@fields.home`, `@(has_group(contact.groups, "nope"))`} {
+			v, _ := s.Runs()[0].EvaluateTemplate(tpl, func(e flows.Event) { b.WriteString("  ! " + string(jsonx.MustMarshal(e)) + "\n") })
+			b.WriteString(tpl + " -> " + v + "\n")
+		}
+		for _, name := range []string{"registration", "Determinism", "nope"} {
+			f, err := sa.Flows().FindByName(name)
+			if err == nil {
+				b.WriteString(name + " => " + string(f.UUID()) + "\n")
+			} else {
+				b.WriteString(name + " => ERR\n")
+			}
+		}
+		return b.String()
+	})
+	// ---- the repository's runner fixtures, scripted start + resumes: on fresh assets and on assets that earlier executions used
+	if fxs, err := loadFixtures("/repo/test/testdata/runner"); err == nil {
+		for _, fx := range fxs {
+			fx := fx
+			var shared flows.SessionAssets
+			nrun := 0
+			add("fixture/"+fx.name, "engine on assets reused across executions", func() string {
+				resetGenerators(5)
+				smtpx.SetSender(okSender{})
+				httpx.SetRequestor(&offlineRequestor{})
+				defer httpx.SetRequestor(httpx.DefaultRequestor)
+				nrun++
+				var sa flows.SessionAssets
+				var err error
+				if nrun%2 == 0 && shared != nil {
+					sa = shared
+				} else {
+					sa, err = test.LoadSessionAssets(envs.NewBuilder().Build(), fx.assetsPath)
+					if err != nil {
+						return "ERR " + err.Error()
+					}
+					if shared == nil {
+						shared = sa
+					}
+				}
+				// legacy flows are migrated when first loaded, which draws UUIDs: load every flow first, then reseed, so that
+				// the UUID source is in the same state at the start of every execution (it is an input of the property)
+				for _, u := range fixtureFlowUUIDs(fx.assetsPath) {
+					sa.Flows().Get(u)
+				}
+				resetGenerators(5)
+				var b strings.Builder
+				trig, err := readTrigger(sa, fx.test.Trigger)
+				if err != nil {
+					return "ERR " + err.Error()
+				}
+				eng := fixtureEngine(0, -1)
+				s, sp, err := eng.NewSession(sa, trig)
+				if err != nil {
+					return "ERR " + err.Error()
+				}
+				emit := func(sp flows.Sprint) {
+					for _, e := range sp.Events() {
+						b.Write(jsonx.MustMarshal(e))
+						b.WriteByte('\n')
+					}
+					b.Write(jsonx.MustMarshal(sp.Segments()))
+					b.WriteByte('\n')
+				}
+				emit(sp)
+				for _, raw := range fx.test.Resumes {
+					if s.Status() != flows.SessionStatusWaiting {
+						break
+					}
+					res, err := readResume(sa, raw)
+					if err != nil {
+						b.WriteString("ERR " + err.Error())
+						break
+					}
+					sp, err = s.Resume(res)
+					if err != nil {
+						b.WriteString("ERR " + err.Error())
+						break
+					}
+					emit(sp)
+				}
+				b.Write(sessionJSON(s))
+				return b.String()
+			})
+		}
+	}
+	// ---- a message built from a channel template: variables whose values look like placeholders, two media variables
+	add("engine/template-preview", "TemplateTranslation.Preview", func() string {
+		resetGenerators(3)
+		tpl := M{"uuid": "5722e1fd-fe32-4e74-ac78-3cf41a6adb7e", "name": "affirmation", "translations": []M{{"channel": M{"uuid": chanA, "name": "A"}, "locale": "eng-US",
+			"components": []M{{"name": "header", "type": "header/media", "content": "", "variables": M{"1": 3, "2": 4}},
+				{"name": "body", "type": "body/text", "content": "A {{1}} B {{2}} C {{3}}", "variables": M{"1": 0, "2": 1, "3": 2}}},
+			"variables": []M{{"type": "text"}, {"type": "text"}, {"type": "text"}, {"type": "image"}, {"type": "document"}}}}}
+		flow := M{"uuid": flowUUID(1), "name": "T", "spec_version": "13.6.0", "language": "eng", "type": "messaging", "nodes": []M{{"uuid": nodeUUID(1, 1),
+			"actions": []M{{"uuid": actionUUID(1, 1, 1), "type": "send_msg", "text": "fallback", "template": M{"uuid": "5722e1fd-fe32-4e74-ac78-3cf41a6adb7e", "name": "affirmation"},
+				"template_variables": []string{"{{2}}{{3}}", "{{3}}", "Z", "image/jpeg:http://x.com/a.jpg", "application/pdf:http://x.com/b.pdf"}}},
+			"exits": exitsFor(1, 1, 0)}}}
+		sa, err := loadAssets(mustJSON(M{"flows": []M{flow}, "templates": []M{tpl},
+			"channels": []M{{"uuid": chanA, "name": "A", "address": "+17036975131", "schemes": []string{"tel"}, "roles": []string{"send", "receive"}, "country": "US"}}}))
+		if err != nil {
+			return "ERR " + err.Error()
+		}
+		c := contactJSON()
+		c["urns"] = []string{"tel:+12065551212?channel=" + chanA}
+		t := M{"type": "manual", "flow": M{"uuid": flowUUID(1), "name": "T"}, "contact": c, "triggered_on": "2018-07-06T12:00:00Z",
+			"environment": M{"allowed_languages": []string{"eng"}, "default_country": "US", "date_format": "YYYY-MM-DD", "time_format": "tt:mm", "timezone": "UTC"}}
+		trig, err := readTrigger(sa, mustJSON(t))
+		if err != nil {
+			return "ERR " + err.Error()
+		}
+		_, sp, err := newEngine(0, -1).NewSession(sa, trig)
+		if err != nil {
+			return "ERR " + err.Error()
+		}
+		var b strings.Builder
+		for _, e := range sp.Events() {
+			b.Write(jsonx.MustMarshal(e))
+			b.WriteByte('\n')
+		}
+		return b.String()
+	})
+	// ---- services: the same HTTP response must give the same result
+	logHTTP := func(*flows.HTTPLog) {}
+	add("service/luis-intents-with-equal-scores", "luis.Classify", func() string {
+		httpx.SetRequestor(&routeRequestor{routes: [][2]string{{"/luis/", `{"query":"x","prediction":{"topIntent":"Alpha","intents":{"Alpha":{"score":0.5},"Beta":{"score":0.5},"Gamma":{"score":0.5},"Delta":{"score":0.5},"Low":{"score":0.1}},"entities":{}}}`}}})
+		defer httpx.SetRequestor(httpx.DefaultRequestor)
+		svc := luis.NewService(http.DefaultClient, nil, nil, nil, "https://luis.example.com/", "app", "key", "production")
+		c, err := svc.Classify(env, "book", logHTTP)
+		if err != nil {
+			return "ERR " + err.Error()
+		}
+		return string(jsonx.MustMarshal(c))
+	})
+	add("service/wit-entities-with-roles", "wit.Classify", func() string {
+		httpx.SetRequestor(&routeRequestor{routes: [][2]string{{"wit.ai", `{"text":"x","intents":[{"id":"1","name":"book","confidence":0.9}],"entities":{"location:origin":[{"id":"1","name":"location","role":"origin","value":"Quito","confidence":0.9}],"location:dest":[{"id":"2","name":"location","role":"dest","value":"Lima","confidence":0.8}],"location:via":[{"id":"3","name":"location","role":"via","value":"Cali","confidence":0.7}]},"traits":{}}`}}})
+		defer httpx.SetRequestor(httpx.DefaultRequestor)
+		svc := wit.NewService(http.DefaultClient, nil, nil, "token")
+		c, err := svc.Classify(env, "book", logHTTP)
+		if err != nil {
+			return "ERR " + err.Error()
+		}
+		return string(jsonx.MustMarshal(c))
+	})
+	add("service/dtone-products-in-two-currencies", "dtone.Transfer", func() string {
+		resetGenerators(2)
+		prod := func(id int, amount int, unit string) string {
+			return fmt.Sprintf(`{"id":%d,"name":"%d %s","description":"","service":{"id":1,"name":"Mobile"},"operator":{"id":1596,"name":"Claro"},"type":"FIXED_VALUE_RECHARGE","source":{"amount":%d,"unit":"USD","unit_type":"CURRENCY"},"destination":{"amount":%d,"unit":"%s","unit_type":"CURRENCY"}}`, id, amount, unit, amount, amount, unit)
+		}
+		httpx.SetRequestor(&routeRequestor{routes: [][2]string{
+			{"/lookup/", `[{"id":1596,"name":"Claro","identified":true,"country":{"iso_code":"ECU","name":"Ecuador","regions":null},"regions":null}]`},
+			{"/products", "[" + prod(11, 3, "USD") + "," + prod(12, 500, "RWF") + "," + prod(13, 2, "EUR") + "]"},
+			{"/async/transactions", `{"id":777,"external_id":"x","status":{"id":20000,"message":"CONFIRMED","class":{"id":2,"message":"CONFIRMED"}}}`}}})
+		defer httpx.SetRequestor(httpx.DefaultRequestor)
+		svc := dtone.NewService(http.DefaultClient, nil, "key", "secret")
+		tr, err := svc.Transfer(urns.URN("tel:+593979000000"), urns.URN("tel:+593979123456"), map[string]decimal.Decimal{"USD": decimal.RequireFromString("3"), "RWF": decimal.RequireFromString("500"), "EUR": decimal.RequireFromString("2")}, logHTTP)
+		if err != nil {
+			return "ERR " + err.Error() + " " + string(jsonx.MustMarshal(tr))
+		}
+		return string(jsonx.MustMarshal(tr))
+	})
+	// ---- two results created at the same instant that both contribute the same key to the legacy extra, session restored
+	add("engine/legacy-extra-results-created-together", "legacyExtra.addResults", func() string {
+		resetGenerators(4)
+		fixed := time.Date(2018, 7, 6, 12, 30, 0, 0, time.UTC)
+		dates.SetNowFunc(func() time.Time { return fixed })
+		httpx.SetRequestor(&routeRequestor{routes: [][2]string{{"/one", `{"k":"from one","a":1}`}, {"/two", `{"k":"from two","b":2}`}, {"/three", `{"k":"from three","c":3}`}}})
+		defer httpx.SetRequestor(httpx.DefaultRequestor)
+		hook := func(i int, name, path string) M {
+			return M{"uuid": actionUUID(1, 1, i), "type": "call_webhook", "method": "GET", "url": "http://example.com" + path, "result_name": name}
+		}
+		flow := M{"uuid": flowUUID(1), "name": "L", "spec_version": "13.6.0", "language": "eng", "type": "messaging", "nodes": []M{
+			{"uuid": nodeUUID(1, 1), "actions": []M{hook(1, "Zed", "/one"), hook(2, "Alpha", "/two"), hook(3, "Mid", "/three")},
+				"router": M{"type": "switch", "operand": "@input.text", "wait": M{"type": "msg"}, "default_category_uuid": catUUID(1, 1, 1), "cases": []M{},
+					"categories": []M{{"uuid": catUUID(1, 1, 1), "name": "All", "exit_uuid": exitUUID(1, 1, 1)}}},
+				"exits": []M{{"uuid": exitUUID(1, 1, 1), "destination_uuid": nodeUUID(1, 2)}}},
+			{"uuid": nodeUUID(1, 2), "actions": []M{{"uuid": actionUUID(1, 2, 1), "type": "send_msg", "text": "k=@legacy_extra.k all=@(json(legacy_extra))"}}, "exits": exitsFor(1, 2, 0)}}}
+		sa, err := loadAssets(mustJSON(M{"flows": []M{flow},
+			"channels": []M{{"uuid": chanA, "name": "A", "address": "+17036975131", "schemes": []string{"tel"}, "roles": []string{"send", "receive"}, "country": "US"}}}))
+		if err != nil {
+			return "ERR " + err.Error()
+		}
+		trig, err := readTrigger(sa, mustJSON(M{"type": "manual", "flow": M{"uuid": flowUUID(1), "name": "L"}, "contact": contactJSON(), "triggered_on": "2018-07-06T12:00:00Z"}))
+		if err != nil {
+			return "ERR " + err.Error()
+		}
+		eng := newEngine(0, -1)
+		s, _, err := eng.NewSession(sa, trig)
+		if err != nil {
+			return "ERR " + err.Error()
+		}
+		s2, err := eng.ReadSession(sa, sessionJSON(s), assets.IgnoreMissing)
+		if err != nil {
+			return "ERR " + err.Error()
+		}
+		res, err := readResume(sa, resumeJSON("msg", "hello", 1))
+		if err != nil {
+			return "ERR " + err.Error()
+		}
+		sp, err := s2.Resume(res)
+		if err != nil {
+			return "ERR " + err.Error()
+		}
+		var b strings.Builder
+		for _, e := range sp.Events() {
+			b.Write(jsonx.MustMarshal(e))
+			b.WriteByte('\n')
+		}
+		return b.String()
 	})
 	// ---- expressions over maps
 	ctx := types.NewXObject(map[string]types.XValue{"o": types.NewXObject(map[string]types.XValue{"b": types.NewXNumberFromInt(1), "a": types.NewXNumberFromInt(2), "C": types.NewXNumberFromInt(3), "c": types.NewXNumberFromInt(4), "B": types.NewXNumberFromInt(5)})})
@@ -324,4 +585,33 @@ func c08Det(args []string) error {
 	fmt.Println(string(mustJSON(M{"lines": lw.n, "evaluations": n, "scenarios": len(sc)})))
 	_ = json.Marshal
 	return nil
+}
+
+var fixtureFlowCache = map[string][]assets.FlowUUID{}
+
+func fixtureFlowUUIDs(path string) []assets.FlowUUID {
+	if u, ok := fixtureFlowCache[path]; ok {
+		return u
+	}
+	var out []assets.FlowUUID
+	if gs, err := loadGroups("/repo/test/testdata/runner"); err == nil {
+		for _, g := range gs {
+			fixtureFlowCache[g.path] = g.flowUUIDs
+		}
+	}
+	out = fixtureFlowCache[path]
+	fixtureFlowCache[path] = out
+	return out
+}
+
+// routeRequestor answers every request whose URL contains a route's key with that route's body (200), anything else with {}
+type routeRequestor struct{ routes [][2]string }
+
+func (r *routeRequestor) Do(c *http.Client, req *http.Request) (*http.Response, error) {
+	for _, rt := range r.routes {
+		if strings.Contains(req.URL.String(), rt[0]) {
+			return httpx.NewMockResponse(200, nil, []byte(rt[1])).Make(req), nil
+		}
+	}
+	return httpx.NewMockResponse(200, nil, []byte(`{}`)).Make(req), nil
 }
